@@ -252,6 +252,18 @@ def simulate(expr: ast.AST, hidden: set[str], is_bound) -> str:
     return "passed_on" if silent else "ok"
 
 
+def only_as_dict_key(node: ast.AST, name: str) -> bool:
+    """every read of `name` in the expression is the key type of a Dict[...] / dict[...] / Mapping[...]"""
+    keys: set[int] = set()
+    for n in ast.walk(node):
+        if isinstance(n, ast.Subscript) and isinstance(n.value, ast.Name) and n.value.id in ("Dict", "dict", "Mapping") and isinstance(n.slice, ast.Tuple) and n.slice.elts:
+            k = n.slice.elts[0]
+            if isinstance(k, ast.Name) and k.id == name:
+                keys.add(id(k))
+    reads = [n for n in ast.walk(node) if isinstance(n, ast.Name) and n.id == name]
+    return bool(reads) and all(id(n) in keys for n in reads)
+
+
 def class_scope_problems(code: str | ast.Module) -> list[dict]:
     """Every (class, hidden name, hiding member, use) of the module.  `phase`:
     "class_body"     — the use is evaluated while the class body runs, after the hiding member;
@@ -338,7 +350,7 @@ def class_scope_problems(code: str | ast.Module) -> list[dict]:
             for n in names:
                 problem(n, "class_creation", "annotation", m,
                         effect_v2=eff_v2 if n in hidden_v2 else "ok", effect_dc=eff_dc if n in hidden_dc else "ok",
-                        str_hider=any(str_valued.get(x) for x in names))
+                        str_hider=any(str_valued.get(x) for x in names), dict_key_only=only_as_dict_key(ann, n))
         for b in cls.body:  # a nested class body has its own namespace (the enclosing one is not visible)
             if isinstance(b, ast.ClassDef):
                 analyse(b, qual + "." + b.name, top, before)
